@@ -45,7 +45,7 @@ def cfg_fn(r):
         cfg['joliet'] = 3
     if r.random() < 0.3:
         cfg['vol_expire_date'] = float(W.World.pick_instant(r))
-    return cfg
+    return G.clamp_config(cfg)
 
 
 PROFILE = H.Profile('c19', nops=(3, 12), cfg_fn=cfg_fn, final_restart=True,
